@@ -517,6 +517,35 @@ def run(ctx):
     ctx.check(not esc, "init-reports-failure", "E-ESCAPE", ini.loc(), "Stats::init turns a failed start into 'false'",
               "an exception escapes Stats::init: " + (esc[0][0].what if esc else ""))
 
+    # ------------------------------------------------ server and client agree on the socket path: both use the text they were given.
+    # ~Stats wakes its accept thread by connecting a StatsClient to its own stats_socket_path_; a client (or server) that rewrites the
+    # path (normalises "..", resolves, trims) can end up at another file system object than the one the server bound - the wake-up
+    # connect fails, its error is ignored, and join() waits for ever: shutdown does not complete.
+    n_path = 0
+    for f in sorted(P.fns.values(), key=lambda x: x.usr):
+        if f.kind != "ctor" or f.pq not in ("Oomd::StatsClient::StatsClient", "Oomd::Stats::Stats") or not f.params:
+            continue
+        for ini in f.d.get("inits", []):
+            if not ini.get("written") or "n" not in ini or not ini.get("field", "").endswith("::stats_socket_path_"):
+                continue
+            n_path += 1
+            ctx.use(f)
+            t = re.sub(r"^std::move\((.*)\)$", r"\1", f.text(ini["n"]))
+            ctx.check(t in [p_["name"] for p_ in f.params], "socket-path-used-as-given:" + short(f), "provenance (constructor initialiser)", f.loc(),
+                      "stats_socket_path_ is the path the constructor was given",
+                      "%s stores '%s' instead of the path it was given: server and client no longer name the same socket for every spelling (a lexically "
+                      "folded 'link/..' is another directory when 'link' is a symlink), so the wake-up connection ~Stats makes to its own path can fail "
+                      "and the destructor's join() never returns" % (short(f), t[:90]))
+    ctx.counters["socket_path_inits"] = n_path
+    ctx.floor("socket_path_inits", 2, "constructor initialisers of stats_socket_path_ (Stats, StatsClient)")
+    dt_ = ctx.fn1("Oomd::Stats::~Stats")
+    wk_ = [i for i in dt_.all("construct") if "StatsClient" in (dt_.nodes[i].get("type") or "")] + [i for i in dt_.calls("StatsClient") if i not in dt_.all("construct")]
+    wk_args = [dt_.text(a) for i in wk_ for a in dt_.nodes[i].get("args", [])]
+    if not wk_:
+        ctx.broken("wake-up-client-uses-own-path", "anchor", dt_.loc(), "no StatsClient constructed in ~Stats (the wake-up of the accept thread)")
+    else:
+        ctx.check(any("stats_socket_path_" in a for a in wk_args), "wake-up-client-uses-own-path", "provenance", dt_.loc(wk_[0]),
+                  "the destructor wakes the accept thread through a client for its own socket path", "the wake-up client is built from " + str(wk_args)[:100])
     # ------------------------------------------------ bounded copies into sun_path
     n_cp = 0
     for f in P.fns.values():
